@@ -1033,25 +1033,30 @@ theorem send_loop (J t : Int) (ht0 : 0 < t) (htJ : t ≤ J) (lf : Nat) :
         simp only at hsb
         subst hsb
         rfl
-      simp [Blk.whileLoop, BufferedSocket.send.loop1.cond, BufferedSocket.send.loop1.orelse, Blk.skip, hsb, truthy,
+      simp [Blk.whileLoop, BufferedSocket.send.loop1.cond, BufferedSocket.send.loop1.orelse, Blk.skip, hsb, truthy, len,
         sendLoop, SendLoopPost, htot]
       exact hself0
     | cons x xs =>
       have hc : BufferedSocket.send.loop1.cond (snet J) lf ⟨self, loc, ⟨script, wire, false⟩⟩ = true := by
-        simp [BufferedSocket.send.loop1.cond, hsb, truthy]
+        simp [BufferedSocket.send.loop1.cond, hsb, truthy, len]
+        try omega
       rw [Blk.whileLoop]
       simp only [hc, if_true]
       cases script with
       | nil =>
         have hn2 : sendFuel [] ([] : Bytes) ≤ n := by simp [sendFuel] at hn ⊢; omega
-        have hstep : BufferedSocket.send.loop1.body (snet J) lf ⟨self, loc, ⟨[], wire, false⟩⟩
-            = (.next, ⟨{ self with sbuf := [] :: rest }, { loc with sent := ((x :: xs).length : Nat), total_sent := ((total + (x :: xs).length : Nat) : Int), tmp2 := 0, cur_timeout := t - (0 - loc.start) }, ⟨[], wire ++ (x :: xs), false⟩⟩) := by
-          simp [BufferedSocket.send.loop1.body, Blk.seq, Blk.call, Blk.assign, Blk.ite, Blk.skip, Blk.raise, snet_send, netSend,
-            snet_settimeout, snet_time, snet_fsub, snet_fle, snet_fzero, hto, snet_truthy_some, htne, unwrap, hsb, hst, htot,
-            sliceFrom_len_cons, show ¬ t ≤ 0 by omega]
-        rw [hstep]
-        have h := ih ⟨{ self with sbuf := [] :: rest }, { loc with sent := ((x :: xs).length : Nat), total_sent := ((total + (x :: xs).length : Nat) : Int), tmp2 := 0, cur_timeout := t - (0 - loc.start) }, ⟨[], wire ++ (x :: xs), false⟩⟩
-          [] rest (total + (x :: xs).length) hn2 rfl hto hst rfl rfl
+        generalize hB : BufferedSocket.send.loop1.body (snet J) lf ⟨self, loc, ⟨[], wire, false⟩⟩ = B
+        simp [BufferedSocket.send.loop1.body, Blk.seq, Blk.call, Blk.assign, Blk.ite, Blk.skip, Blk.raise, snet_send, netSend,
+          snet_settimeout, snet_time, snet_fsub, snet_fle, snet_fzero, hto, snet_truthy_some, htne, unwrap, hsb, hst, htot,
+          sliceFrom_len_cons, show ¬ t ≤ 0 by omega] at hB
+        subst hB
+        simp only []
+        generalize hF : (Fr.mk _ _ _ : SFr) = F
+        have h := ih F [] rest (total + (x :: xs).length) (by subst hF; exact hn2) (by subst hF; rfl) (by subst hF; simp [hto])
+          (by subst hF; simp [hst]) (by subst hF; simp [htot] <;> omega) (by subst hF; rfl)
+        have e1 : F.self = { self with sbuf := [] :: rest } := by subst hF; rfl
+        have e2 : F.w = ⟨[], wire ++ (x :: xs), false⟩ := by subst hF; rfl
+        rw [e1, e2] at h
         simpa [SendLoopPost, sendLoop] using h
       | cons e r =>
         cases e with
@@ -1085,16 +1090,19 @@ theorem send_loop (J t : Int) (ht0 : 0 < t) (htJ : t ≤ J) (lf : Nat) :
               simp only [sendFuel, List.length_cons, if_neg hne] at hn
               unfold sendFuel
               split <;> omega
-            have hstep : BufferedSocket.send.loop1.body (snet J) lf ⟨self, loc, ⟨.accept k :: r, wire, false⟩⟩
-                = (.next, ⟨{ self with sbuf := (x :: xs).drop k :: rest }, { loc with sent := ((min k (xs.length + 1) : Nat) : Int), total_sent := ((total + min k (x :: xs).length : Nat) : Int), tmp2 := 0, cur_timeout := t - (0 - loc.start) }, ⟨r, wire ++ (x :: xs).take k, false⟩⟩) := by
-              simp [BufferedSocket.send.loop1.body, Blk.seq, Blk.call, Blk.assign, Blk.ite, Blk.skip, Blk.raise, snet_send, netSend,
-                snet_settimeout, snet_time, snet_fsub, snet_fle, snet_fzero, hto, snet_truthy_some, htne, unwrap, hsb, hst, htot,
-                sliceFrom_min_cons, hck, show ¬ t ≤ 0 by omega]
-            rw [hstep]
-            have h := ih ⟨{ self with sbuf := (x :: xs).drop k :: rest }, { loc with sent := ((min k (xs.length + 1) : Nat) : Int), total_sent := ((total + min k (x :: xs).length : Nat) : Int), tmp2 := 0, cur_timeout := t - (0 - loc.start) }, ⟨r, wire ++ (x :: xs).take k, false⟩⟩
-              ((x :: xs).drop k) rest (total + min k (x :: xs).length) hn2 rfl hto hst rfl rfl
+            generalize hB : BufferedSocket.send.loop1.body (snet J) lf ⟨self, loc, ⟨.accept k :: r, wire, false⟩⟩ = B
+            simp [BufferedSocket.send.loop1.body, Blk.seq, Blk.call, Blk.assign, Blk.ite, Blk.skip, Blk.raise, snet_send, netSend,
+              snet_settimeout, snet_time, snet_fsub, snet_fle, snet_fzero, hto, snet_truthy_some, htne, unwrap, hsb, hst, htot,
+              sliceFrom_min_cons, hck, show ¬ t ≤ 0 by omega] at hB
+            subst hB
+            simp only []
+            generalize hF : (Fr.mk _ _ _ : SFr) = F
+            have h := ih F ((x :: xs).drop k) rest (total + min k (x :: xs).length) (by subst hF; exact hn2) (by subst hF; rfl)
+              (by subst hF; simp [hto]) (by subst hF; simp [hst]) (by subst hF; simp [htot]) (by subst hF; rfl)
+            have e1 : F.self = { self with sbuf := (x :: xs).drop k :: rest } := by subst hF; rfl
+            have e2 : F.w = ⟨r, wire ++ (x :: xs).take k, false⟩ := by subst hF; rfl
+            rw [e1, e2] at h
             simpa [SendLoopPost, sendLoop, hpop] using h
-
 
 theorem truthy_eq_isNonEmpty : (truthy : PyRtC12.Bytes → Bool) = isNonEmpty := by
   funext b; cases b <;> rfl
